@@ -1009,3 +1009,103 @@ class CursorFlow:
             if s is not None and s.get('k') == 'call' and s.get('op') == '[]' and s.get('recv') is not None and fn.is_this_member(s['recv']):
                 return True     # address of an element of an owned container member
         return False
+
+
+# ------------------------------------------------------------------------------------------------ NUL-terminated prefix discipline
+# A fixed-position text parser reads p[k] for constant k from a NUL-terminated string of unknown length.  The read of p[k] is
+# inside the string only if p[0..k-1] are all non-NUL, i.e. each was tested on the way by a condition that is false for '\0'
+# (digit range, == ':' ...).  Must-dataflow over the set of validated indices; facts live on branch edges (short-circuit
+# operands are separate blocks; named bools are looked through).
+
+_PSTR_T = ('const char *', 'const char *const', 'char *', 'const XML_Char *', 'const XML_Char *const')
+
+
+def _zero_satisfies(op, c):
+    return {'<': 0 < c, '<=': 0 <= c, '>': 0 > c, '>=': 0 >= c, '==': 0 == c, '!=': 0 != c}[op]
+
+
+class PrefixFlow:
+    def __init__(self, fn, base_decl):
+        self.fn = fn
+        self.p = base_decl
+
+    def _index_of(self, nid):
+        """k if the expression is p[k] / *(p + k) / *p for the base pointer, else None"""
+        fn = self.fn
+        n = fn.sn(nid)
+        if n is None:
+            return None
+        if n.get('k') == 'index':
+            b = fn.sn(n['base'])
+            if b is not None and b.get('k') == 'var' and b.get('d') == self.p:
+                return fn.const_value(n['idx'])
+        if n.get('k') == 'unop' and n.get('op') == '*':
+            b = fn.sn(n['sub'])
+            if b is not None and b.get('k') == 'var' and b.get('d') == self.p:
+                return 0
+            if b is not None and b.get('k') == 'binop' and b.get('op') == '+':
+                l = fn.sn(b['lhs'])
+                if l is not None and l.get('k') == 'var' and l.get('d') == self.p:
+                    return fn.const_value(b['rhs'])
+        return None
+
+    def edge_facts(self, blk):
+        """[(index, successor)] -- p[index] is known to be non-NUL on that edge"""
+        fn = self.fn
+        out = []
+        for (a, truth, idx) in edge_atoms(fn, blk):
+            k = self._index_of(a)
+            if k is not None:
+                if truth:
+                    out.append((k, idx))
+                continue
+            pc = cmp_parts(fn, a)
+            if pc is None:
+                continue
+            op, l, r = pc
+            kl, kr = self._index_of(l), self._index_of(r)
+            if kl is not None and fn.const_value(r) is not None:
+                k, c = kl, fn.const_value(r)
+            elif kr is not None and fn.const_value(l) is not None:
+                k, c, op = kr, fn.const_value(l), _FLIP[op]
+            else:
+                continue
+            if _zero_satisfies(op, c) != truth:
+                out.append((k, idx))
+        return out
+
+    def run(self, extra_reads=()):
+        """returns [(node id, k, missing indices)] for reads of p[k] reachable with an unvalidated smaller index"""
+        fn = self.fn
+        IN = {fn.entry: frozenset()}
+        work = [fn.entry]
+        while work:
+            b = work.pop()
+            st = IN[b]
+            blk = fn.blocks[b]
+            facts = self.edge_facts(blk)
+            for idx, s2 in enumerate(blk['succs']):
+                if s2 is None:
+                    continue
+                out = st | frozenset(k for (k, i) in facts if i == idx)
+                old = IN.get(s2)
+                new = out if old is None else (old & out)
+                if old is None or new != old:
+                    IN[s2] = new
+                    work.append(s2)
+        pos = fn.positions()
+        bad = []
+        reads = []
+        for n in fn.all_nodes():
+            k = self._index_of(n['id']) if n.get('k') in ('index', 'unop') else None
+            if k is not None and k >= 1:
+                reads.append((n['id'], k))
+        reads += list(extra_reads)
+        for (nid, k) in reads:
+            if nid not in pos or pos[nid][0] not in IN:
+                continue
+            st = IN[pos[nid][0]]
+            missing = [i for i in range(k) if i not in st]
+            if missing:
+                bad.append((nid, k, missing))
+        return bad, reads
